@@ -111,6 +111,50 @@ func scenarioC08(rc *RunCtx) *Violation {
 		}
 		rc.Probe("profile_local_css_twins")
 	}
+	// profile: a package that ships a "module" and a "main" build is imported from one file and
+	// require()d from another (the dual-package situation), sometimes with a "module" build that
+	// draws a diagnostic of its own
+	if g.n(6) == 0 && len(p.Pkgs) > 0 {
+		pk := p.Pkgs[g.n(len(p.Pkgs))]
+		pk.Entry = 1
+		pk.PeerMissing = g.n(3) != 0
+		var imp, req *Module
+		for _, m := range p.Mods {
+			if m.Deleted || !isJS(m.Kind) {
+				continue
+			}
+			if m.Kind != "cjs" && imp == nil {
+				imp = m
+			} else if req == nil && m != imp {
+				req = m
+			}
+		}
+		if imp != nil && req != nil {
+			has := func(m *Module) bool {
+				for _, im := range m.Imports {
+					if im.Target < 0 && im.Pkg == pk.Name {
+						return true
+					}
+				}
+				return false
+			}
+			if !has(imp) {
+				imp.Imports = append(imp.Imports, Import{Target: -1, Pkg: pk.Name, Style: ImpNamed})
+			}
+			if !has(req) {
+				req.Imports = append(req.Imports, Import{Target: -1, Pkg: pk.Name, Style: ImpRequire})
+			}
+			for _, m := range []*Module{imp, req} {
+				if !entryOf(p, m.ID) && g.n(2) == 0 {
+					p.Entries = append(p.Entries, m.ID)
+				}
+			}
+			o.Bundle = true
+			o.Platform = 0
+			o.Packages = 0
+			rc.Probe("profile_dual_package_both_ways")
+		}
+	}
 	kind := perturb(g, p, o)
 	// a second, unrelated project for sibling builds in the same process
 	p2 := GenProject(g, "/q")
